@@ -5,7 +5,7 @@ an allocation path (R-ARENA)."""
 from vlib import fixtures
 import re
 
-from rules import linear, own, taint
+from rules import linear, own, taint, sync
 from vlib import witness
 from vlib.mir import Fn
 
@@ -18,7 +18,7 @@ SIZE_NAMES = ('size', 'align', 'count', 'len', 'alignment', 'capacity', 'n', 'ad
 
 def run(ctx):
     fx = ctx.facts("default")
-    fixtures.run(ctx, ['linear', 'taint'])
+    fixtures.run(ctx, ['linear', 'taint', 'commit'])
     # (1) request sizes are untrusted integers for the allocator entry points
     cl = taint.new_closure(fx)
     n = 0
@@ -64,6 +64,17 @@ def run(ctx):
         ctx.analysed_fns.add(fid)
     ctx.instance("R-LINEAR.sites", m)
     ctx.floor("R-LINEAR.sites", 10)   # Option/Result/ControlFlow/bare SecureChunk locals produced by calls (containers and references are not owners)
+    # (4b) a refused request leaves the cursor untouched: no atomic RMW decides its own refusal without being undone
+    rmw = 0
+    for f in FILES:
+        for fid in fx.fn_ids(f):
+            if '::tests::' in fid:
+                continue
+            fnc = Fn(fx.raw(fid))
+            rmw += sum(1 for b, op, fld, c in sync.atomic_sites(fnc) if op in ("fetch_add", "fetch_sub", "swap"))
+            sync.commit_before_check(ctx, fnc)
+    ctx.instance("R-COMMIT.rmw_sites", rmw)
+    ctx.floor("R-COMMIT.rmw_sites", 40)
     # (5) who may drop an arena
     linear.arena(ctx, fx, FILES)
     ctx.floor("R-ARENA.arena_types", 5)
